@@ -16,7 +16,7 @@
 From Coq Require Import ZArith List String.
 From BB Require Import Base.PyBase Gen.Encoders Spec.RV32 Spec.Operands Spec.Sem Model.Items Model.Passes
   Proofs.PseudoEmit Proofs.Pseudo.
-From BB Require Gen.Pseudo Proofs.PseudoTable.
+From BB Require Gen.Pseudo Proofs.PseudoTable Proofs.LiProgram.
 Import ListNotations.
 Open Scope Z_scope.
 Open Scope list_scope.
@@ -217,3 +217,18 @@ Print Assumptions C05_templates_from_source.
 Theorem C05_big_pseudos_from_source : forall name, is_big_pseudo name = mem_str name Gen.Pseudo.big_pseudos.
 Proof. exact PseudoTable.big_pseudo_table. Qed.
 Print Assumptions C05_big_pseudos_from_source.
+
+(* ... and as a whole PROGRAM: for the one-line program `li rd, e` the 16 passes of the pass model ARE pseudo_rule followed by
+   emit_bytes (LiProgram.li_line_pipeline), so: if it assembles, its output bytes, loaded and run for one or two steps, leave the
+   value of e (modulo 2^32) in rd and touch nothing else *)
+Theorem C05_li_program : forall l rd rest e r,
+  assemble_items [(l, IPseudo "li" (rd :: rest) (POk e))] [] [] false = Done r ->
+  exists n nrd v, regnum (AStr rd) = Some nrd /\ eval_here l 0 [] [] e = Done v /\ (n = 1 \/ n = 2)%nat /\
+    forall s, loaded s (flat_map PseudoEmit.chunk_bytes (r_chunks r)) ->
+      exists s', run_n n s = Some s' /\ pc s' = wrap (pc s + 4 * Z.of_nat n) /\ only_reg s s' nrd (wrap v).
+Proof. exact LiProgram.li_program. Qed.
+Print Assumptions C05_li_program.
+Example C05_li_program_example :
+  exists r, assemble_items [({| lfile := "f"; lnum := 1 |}, IPseudo "li" ["t0"; "0x12345678"] (POk (EArith (ANum 305419896))))]%string [] [] false = Done r
+            /\ flat_map PseudoEmit.chunk_bytes (r_chunks r) = [183; 82; 52; 18; 147; 130; 130; 103].
+Proof. eexists. split; vm_compute; reflexivity. Qed.
